@@ -148,7 +148,7 @@ func (w *World) ProduceBlock(dtSec int, miss []int) {
 	}
 	h := w.N().Header.Height
 	w.St.Blocks++
-	for _, o := range w.Oracles {
+	for _, o := range w.activeOracles() {
 		o.AfterBegin(w)
 		if w.Stopped() {
 			return
@@ -166,7 +166,7 @@ func (w *World) ProduceBlock(dtSec int, miss []int) {
 	}
 	w.Mempool = later
 	for _, tx := range now {
-		for _, o := range w.Oracles {
+		for _, o := range w.activeOracles() {
 			o.BeforeTx(w, tx)
 		}
 		var r0 abci.ResponseDeliverTx
@@ -193,7 +193,7 @@ func (w *World) ProduceBlock(dtSec int, miss []int) {
 		w.Logf("h=%d tx %s code=%d", h, tx.Kind, r0.Code)
 		tr := TxResult{Tx: tx, Code: r0.Code, Log: r0.Log, Res: r0}
 		w.LastBlockTxs = append(w.LastBlockTxs, tr)
-		for _, o := range w.Oracles {
+		for _, o := range w.activeOracles() {
 			o.AfterTx(w, &w.LastBlockTxs[len(w.LastBlockTxs)-1])
 			if w.Stopped() {
 				return
@@ -201,6 +201,7 @@ func (w *World) ProduceBlock(dtSec int, miss []int) {
 		}
 	}
 
+	w.capturePreEnd()
 	for i, n := range w.Nodes {
 		resp, c := n.EndBlock()
 		if c != nil {
@@ -215,7 +216,7 @@ func (w *World) ProduceBlock(dtSec int, miss []int) {
 			w.noteMismatch("events", fmt.Sprintf("EndBlock events differ on replica %d at height %d", i, h))
 		}
 	}
-	for _, o := range w.Oracles {
+	for _, o := range w.activeOracles() {
 		o.AfterEnd(w)
 		if w.Stopped() {
 			return
@@ -236,7 +237,7 @@ func (w *World) ProduceBlock(dtSec int, miss []int) {
 	}
 	w.Logf("h=%d apphash=%x txs=%d", h, h0, len(now))
 	w.St.SimSeconds += int64(dtSec)
-	for _, o := range w.Oracles {
+	for _, o := range w.activeOracles() {
 		o.AfterCommit(w)
 		if w.Stopped() {
 			return
@@ -310,4 +311,30 @@ func sortedKeys[V any](m map[string]V) []string {
 	}
 	sort.Strings(ks)
 	return ks
+}
+
+// capturePreEnd remembers the balances of every account the oracles care about just before EndBlock.
+func (w *World) capturePreEnd() {
+	st := w.ReadState()
+	w.preEndBal = map[string]sdk.Int{}
+	accs := []sdk.AccAddress{}
+	for _, u := range w.Users {
+		accs = append(accs, u.Acc.Addr)
+	}
+	for _, k := range sortedKeys(w.Extra) {
+		accs = append(accs, w.Extra[k].Addr)
+	}
+	accs = append(accs, TempAddr())
+	for _, a := range accs {
+		for _, d := range w.Cfg.Denoms() {
+			w.preEndBal[a.String()+"|"+d] = st.Balance(a, d)
+		}
+	}
+}
+
+func (w *World) activeOracles() []Oracle {
+	if w.booting {
+		return nil
+	}
+	return w.Oracles
 }
